@@ -11,6 +11,7 @@ CONSTANTS
     Scripts <- MC_ScriptsThorough
     Forms = {"none", "plain", "setup", "result", "result_o", "result_e", "resultM", "resultM_m", "guard", "newspan"}
     Frames = {"in", "out"}
+    Carriers = {"fn", "async_fn", "block"}
     MaxLen = 0
     F2Bug = FALSE
     Emit = TRUE
